@@ -92,7 +92,10 @@ def dispatch_exhaustive(check: Check, rule: str, fn: ast.AST, subject: str, fami
                         exempt: dict[str, str], what: str, also_isinstance: bool = False) -> None:
     covered: set[str] = set()
     for p, _node in dispatch_chain(fn, subject):
-        covered |= preds.get(p, set())
+        cs = preds.get(p, set())
+        if cs and family <= cs:
+            continue  # a predicate accepting the whole family does not discriminate (e.g. is_named_type)
+        covered |= cs
     if also_isinstance:
         for n in walk_body(fn):
             if isinstance(n, ast.Call) and call_name(n) == "isinstance" and len(n.args) == 2 and unparse(n.args[0]) == subject:
